@@ -6,6 +6,8 @@
 import Coraza.Base.UInt8
 import Coraza.Model.Decode
 import Coraza.Proofs.CMap
+import Coraza.Proofs.Json
+import Coraza.Base.Lit
 open Coraza Coraza.Decode
 
 /-! ## percent-decoding inverts the independent encoder, exactly once -/
@@ -220,3 +222,64 @@ example : parseCookies [0x61, 0x3d, 0x25, 0x34, 0x31, 0x3b, 0x20, 0x62, 0x3d, 0x
 /-! ## non-vacuity -/
 example : parseQuery (encQuery [([], [0x31]), ([0x61, 0x26], []), ([0x61, 0x26], [0x3d])]) =
     [([], [0x31]), ([0x61, 0x26], []), ([0x61, 0x26], [0x3d])] := by decide
+
+/-! ## JSON bodies (internal/bodyprocessors/json.go) -/
+
+open Coraza.Json in
+/-- **C03_json_no_error_within_limit**: a document whose nesting stays within
+    SecRequestBodyJsonDepthLimit raises no recursion error (REQBODY_ERROR stays clear). -/
+theorem C03_json_no_error_within_limit (t : J) (d : Nat) (hd : 0 < d) (h : height t ≤ d) : (argsPost d t).2 = false := by
+  unfold argsPost readJSON
+  have hd' : (d == 0) = false := by simp; omega
+  simp only [hd', Bool.false_eq_true, if_false]
+  cases hs : scalarText t with
+  | some v => rfl
+  | none => exact flatC_noerr t d jsonKey hs h
+
+open Coraza.Json in
+/-- **C03_json_every_scalar_exposed**: for every JSON document within the depth limit and every
+    path in it that leads to a scalar (through any mix of objects and arrays, duplicate member
+    names, names with dots, empty names), ARGS_POST receives an item whose name is `json` followed
+    by the path's segments joined with dots and whose value is the scalar's text (strings decoded,
+    null empty, numbers and booleans as written) — nothing is dropped, merged or renamed. -/
+theorem C03_json_every_scalar_exposed (t : J) (d : Nat) (p : List Seg) (v : Bytes)
+    (hleaf : Leaf t p v) (hp : p ≠ []) (h : height t ≤ d) :
+    (pathKey jsonKey p, v) ∈ (argsPost d t).1 := by
+  have hd : 0 < d := by
+    cases hleaf with
+    | here x v hs => exact absurd rfl hp
+    | arr xs i x p v _ _ => simp [height] at h; omega
+    | obj kvs n x p v _ _ => simp [height] at h; omega
+  have hd' : (d == 0) = false := by simp; omega
+  have hi := leaf_items hleaf d jsonKey h
+  unfold argsPost readJSON
+  simp only [hd', Bool.false_eq_true, if_false]
+  cases hs : scalarText t with
+  | some v' =>
+    -- a scalar document has only the empty path
+    cases hleaf with
+    | here x v hs' => exact absurd rfl hp
+    | arr xs i x p v _ _ => simp [scalarText] at hs
+    | obj kvs n x p v _ _ => simp [scalarText] at hs
+  | none =>
+    simp only [itemsOf, hs] at hi
+    exact hi
+
+open Coraza.Json in
+/-- what the code did before fix 7f3a048 (items collected in a map): of two items with the same
+    flattened name only the last survived — a duplicate member name, a dotted name next to a nested
+    member, an array next to a member named like its length entry -/
+theorem C03_json_map_lost_items :
+    toMap (readJSON 8 (.obj [(b!"a", .num (b!"1")), (b!"a", .num (b!"2"))])).1 = [(b!"json.a", b!"2")] ∧
+    toMap (readJSON 8 (.obj [(b!"a.b", .str (b!"x")), (b!"a", .obj [(b!"b", .str (b!"attack"))])])).1 = [(b!"json.a.b", b!"attack")] ∧
+    (readJSON 8 (.obj [(b!"a", .num (b!"1")), (b!"a", .num (b!"2"))])).1 = [(b!"json.a", b!"1"), (b!"json.a", b!"2")] := by
+  decide +kernel
+
+/-- non-vacuity of the completeness theorem: {"items":[1,{"k":"v"}]}, path items.1.k -/
+example : Coraza.Json.Leaf (.obj [(b!"items", .arr [.num (b!"1"), .obj [(b!"k", .str (b!"v"))]])])
+    [.name (b!"items"), .idx 1, .name (b!"k")] (b!"v") :=
+  Coraza.Json.Leaf.obj [(b!"items", .arr [.num (b!"1"), .obj [(b!"k", .str (b!"v"))]])] (b!"items")
+    (.arr [.num (b!"1"), .obj [(b!"k", .str (b!"v"))]]) [.idx 1, .name (b!"k")] (b!"v") (by simp)
+    (Coraza.Json.Leaf.arr [.num (b!"1"), .obj [(b!"k", .str (b!"v"))]] 1 (.obj [(b!"k", .str (b!"v"))]) [.name (b!"k")] (b!"v") (by simp)
+      (Coraza.Json.Leaf.obj [(b!"k", .str (b!"v"))] (b!"k") (.str (b!"v")) [] (b!"v") (by simp)
+        (Coraza.Json.Leaf.here (.str (b!"v")) (b!"v") (by simp [Coraza.Json.scalarText]))))
